@@ -199,3 +199,138 @@ def rule_sector_canonical_order(ctx):
     else:
         raise AnalysisError("parse_u1u1_sector: dict branch neither iterates nor looks up the sector")
     return r
+
+
+# ---------------------------------------------------------------------------
+# cached representations of the builder: every write is followed by a reset on every path
+# ---------------------------------------------------------------------------
+
+MUTATORS = {"pop", "popitem", "clear", "update", "setdefault", "__setitem__", "__delitem__"}
+
+
+def _is_self_attr(n, names):
+    return isinstance(n, ast.Attribute) and isinstance(n.value, ast.Name) and n.value.id == "self" and n.attr in names
+
+
+def _stmt_events(st, state_attrs, reset_name):
+    """ordered list of 'W' (write of tracked state) / 'R' (reset) events of one simple statement."""
+    ev = []
+    for x in _own_walk(st):
+        if isinstance(x, ast.Call) and isinstance(x.func, ast.Attribute):
+            if x.func.attr in MUTATORS and _is_self_attr(x.func.value, state_attrs):
+                ev.append((x.lineno, x.col_offset, "W", src_of(x)[:50]))
+            if x.func.attr == reset_name and isinstance(x.func.value, ast.Name) and x.func.value.id == "self":
+                ev.append((x.lineno, x.col_offset, "R", ""))
+    tgts = []
+    if isinstance(st, ast.Assign):
+        tgts = st.targets
+    elif isinstance(st, (ast.AugAssign, ast.AnnAssign)):
+        tgts = [st.target]
+    elif isinstance(st, ast.Delete):
+        tgts = st.targets
+    for t in tgts:
+        for y in ast.walk(t):
+            if _is_self_attr(y, state_attrs) or (isinstance(y, ast.Subscript) and _is_self_attr(y.value, state_attrs)):
+                ev.append((st.end_lineno, 10**6, "W", src_of(t)[:50]))
+                break
+    ev.sort()
+    return [(k, w, ln) for ln, _, k, w in ev]
+
+
+def dirty_exits(fnode, state_attrs, reset_name):
+    """[(lineno, what-was-written)] exits of the function reachable with a write not followed by a reset."""
+    out = []
+
+    def run(stmts, dirty):
+        # dirty: None (clean) or description of the pending write
+        for st in stmts:
+            if isinstance(st, (ast.FunctionDef, ast.AsyncFunctionDef, ast.ClassDef)):
+                continue
+            if isinstance(st, ast.If):
+                for k, w, ln in _stmt_events(ast.Expr(st.test), state_attrs, reset_name):
+                    dirty = (w, ln) if k == "W" else None
+                d1 = run(st.body, dirty)
+                d2 = run(st.orelse, dirty)
+                dirty = d1 if d1 is not None and d1 != "EXIT" else d2 if d2 != "EXIT" else None
+                if d1 == "EXIT" and d2 == "EXIT":
+                    return "EXIT"
+                if d1 == "EXIT":
+                    dirty = d2
+                elif d2 == "EXIT":
+                    dirty = d1
+                else:
+                    dirty = d1 if d1 is not None else d2
+                continue
+            if isinstance(st, (ast.For, ast.While, ast.AsyncFor)):
+                d1 = run(st.body, dirty)
+                if d1 not in (None, "EXIT"):
+                    dirty = d1
+                d2 = run(st.orelse, dirty)
+                if d2 not in (None, "EXIT"):
+                    dirty = d2
+                continue
+            if isinstance(st, (ast.With, ast.AsyncWith)):
+                d1 = run(st.body, dirty)
+                if d1 == "EXIT":
+                    return "EXIT"
+                dirty = d1
+                continue
+            if isinstance(st, ast.Try):
+                d1 = run(st.body, dirty)
+                for h in st.handlers:
+                    run(h.body, dirty)
+                if d1 != "EXIT":
+                    dirty = d1
+                d3 = run(st.finalbody, dirty if dirty != "EXIT" else None)
+                if d3 not in (None, "EXIT"):
+                    dirty = d3
+                elif st.finalbody and d3 is None:
+                    dirty = None
+                continue
+            for k, w, ln in _stmt_events(st, state_attrs, reset_name):
+                dirty = (w, ln) if k == "W" else None
+            if isinstance(st, ast.Return):
+                if dirty is not None:
+                    out.append((st.lineno, dirty))
+                return "EXIT"
+            if isinstance(st, ast.Raise):
+                return "EXIT"  # an exception is loud; not a silent stale cache
+        return dirty
+
+    d = run(fnode.body, None)
+    if d not in (None, "EXIT"):
+        out.append((fnode.end_lineno, d))
+    return out
+
+
+def rule_builder_invalidate(ctx):
+    r = RuleResult(
+        "writers-invalidate[builder]",
+        "in SparseOperatorBuilder every write of the raw terms or of a transform flag (_terms_raw, _transform_jordan_wigner, "
+        "_transform_pauli_decompose, _atol) is followed by self._reset_caches() on every path to a normal exit of the method "
+        "(abstract interpretation of each method body over {clean, dirty}); otherwise cached final terms / coupling maps / "
+        "built matrices describe an operator that no longer exists",
+    )
+    cls = ctx.prog.cls(BUILDER, "SparseOperatorBuilder")
+    state = {"_terms_raw", "_transform_jordan_wigner", "_transform_pauli_decompose", "_atol"}
+    n = 0
+    for name, f in sorted(cls.methods.items()):
+        if f.is_alias or name in ("__init__", "_reset_caches", "copy", "__copy__"):
+            continue
+        writes = [e for st in _own_walk(f.node) if isinstance(st, ast.stmt) and not isinstance(st, (ast.If, ast.For, ast.While, ast.With, ast.Try, ast.FunctionDef)) for e in _stmt_events(st, state, "_reset_caches") if e[0] == "W"]
+        if not writes:
+            continue
+        n += 1
+        exits = dirty_exits(f.node, state, "_reset_caches")
+        construct = f"SparseOperatorBuilder.{name}"
+        if exits:
+            for line, (w, wl) in exits:
+                r.bad(Finding(
+                    "writers-invalidate[builder]", construct,
+                    f"`{w}` (line {wl}) changes the operator, but the method can leave at line {line} without self._reset_caches(): "
+                    "previously built terms / matrices stay cached and are returned for the changed operator",
+                    where=f"{f.module.relpath}:{line}", operand=f"{w.split('(')[0]}"))
+        else:
+            r.ok(construct, sample={"method": name, "writes": sorted({w for _, w, _ in writes})[:3], "reset": "on every exit path"})
+    r.floor(n, 3, "SparseOperatorBuilder methods that write terms or transform flags")
+    return r
